@@ -141,6 +141,15 @@ def targeted_scenarios(kind, method, idx):
                 post = ["op %d find %d 1" % (now + d * MS, k) for d in (2, 50) for k in (1, 2)] if kind in TTLK else []
                 out.append(dict(id="%s-t%d-%s-%d" % (KINDS[kind], idx, method, n), kind=kind, cap=cap if kind != 3 else 6, ttl=5, tick=1, rnum=1, rk=1,
                                 now=now, universe=[1, 2, 3, 4], pre=pre, progs=progs, post=post, unlock_yield=(two is None)))
+    if kind in TTLK and method in ("clean_expired_values", "clear"):
+        # bulk: many expired entries, so that a call which works in batches (and lets the lock go in between) shows
+        nkeys, t0 = 100, now - 10 * MS
+        pre = ["op %d insert %d %d %d 3" % (t0, 5 if kind == 6 else 0, k, 1 if kind == 9 else 1000 + k) for k in range(1, nkeys + 1)]
+        for oth in ("size", "find 1 0", "insert 0 1 7 3"):
+            n += 1
+            out.append(dict(id="%s-t%d-%s-bulk%d" % (KINDS[kind], idx, method, n), kind=kind, cap=128, ttl=5, tick=1, rnum=1, rk=1,
+                            now=now, universe=list(range(1, nkeys + 1)), pre=pre, progs=[[base], [oth.replace(" 7 ", " 1 " if kind == 9 else " 7 ")]],
+                            post=[], unlock_yield=True))
     return out
 
 
